@@ -50,7 +50,7 @@ def used_externals_in(source) -> Set[str]:
 def used_externals() -> Set[str]:
     result = set()
     for filename in state().files_with_snapshots:
-        result |= used_externals_in(pathlib.Path(filename).read_text("utf-8"))
+        result |= used_externals_in(pathlib.Path(filename).read_text("utf-8-sig"))
 
     return result
 
